@@ -208,6 +208,48 @@ SC_EDGE = [0, 1, 2, N - 1, N - 2, N, N + 1, (N - 1) // 2, (N + 1) // 2, 2**127, 
            0x7fffffffffffffffffffffffffffffffd576e73557a4501ddfe92f46681b20a0, 0xd363ad4cc05c30e0a5261c0288126459f85915d77825b696beebc5c2833ede11]
 
 
+def fe_struct_values(quick):
+    """limb-structured field values (both limb layouts): p with one bit of one limb cleared, the all-ones pattern with one limb lowered and
+    the lowest limb at / above p's lowest limb, and sparse two-bit values 2^a + 2^b (the inputs on which a divstep-based inverse / Jacobi
+    routine or a limb-wise range / zero test goes wrong when it consults the wrong limb or stops a batch early)"""
+    vals = []
+    for w in (52, 26):
+        plow = P % (1 << w)
+        for j in range(1, 256 // w + (1 if 256 % w else 0)):
+            if w * j >= 256: break
+            for c in (1, 2, 1 << (w - 1), (1 << w) - 1):
+                if w * j + w > 256 and c >> (256 - w * j): continue
+                vals += [P - (c << (w * j)), P - (c << (w * j)) + 1]
+            vals += [2**256 - (1 << w) - (1 << (w * j)) + plow, 2**256 - (1 << w) - (1 << (w * j)) + plow + 1, 2**256 - (1 << w) - (1 << (w * j)) + (1 << w) - 1]
+    step = 3 if quick else 1
+    for d in (1, 26, 52, 62, 64, 124, 128):
+        for a in range(0, 256 - d, step):
+            vals.append((1 << a) + (1 << (a + d)))
+    for a in range(1, 257, 5 if quick else 1): vals.append((1 << a) - 1)
+    return [v % 2**256 for v in vals if v >= 0]
+
+
+def fe_struct_driver(quick):
+    recs = []
+    for v in fe_struct_values(quick):
+        ops = [["normalizes_to_zero", 0, 0, 0, 0], ["normalizes_to_zero_var", 0, 0, 0, 0], ["is_square_var", 0, 0, 0, 0], ["sqrt", 2, 0, 0, 0],
+               ["inv_var", 2, 0, 0, 0], ["inv", 2, 0, 0, 0], ["set_b32_limit", 3, 0, 0, b32(v)],
+               ["negate", 1, 0, 0, 1], ["add", 1, 0, 0, 0], ["normalizes_to_zero", 0, 1, 0, 0], ["normalizes_to_zero_var", 0, 1, 0, 0],
+               ["normalize", 0, 0, 0, 0], ["is_zero", 0, 0, 0, 0], ["get_b32", 0, 0, 0, 0]]
+        recs.append({"e": "KFeSeq", "in": {"init": [b32(v), b32(1)], "ops": ops}})
+    # equality of values that differ in ONE limb only (fe_equal = normalizes_to_zero of the difference)
+    for w in (52, 26):
+        for j in range(1, 10):
+            if w * j >= 256: break
+            for c in (1, 1 << (w - 1), (1 << w) - 1):
+                d = c << (w * j)
+                if d >= P: continue
+                for x in (1, 0x1234567890abcdef1122334455667788):
+                    y = (x + d) % P
+                    recs.append({"e": "KFeSeq", "in": {"init": [b32(x), b32(y)], "ops": [["normalize", 0, 0, 0, 0], ["normalize", 1, 1, 1, 0], ["equal", 0, 0, 1, 0], ["equal", 0, 1, 0, 0], ["cmp_var", 0, 0, 1, 0]]}})
+    return recs
+
+
 def edge(rng, pool, bits=256):
     r = rng.random()
     if r < 0.35: return rng.choice(pool)
@@ -499,7 +541,7 @@ def run(chk):
         if not chk.violations: raise Infra("driver: too few points from the first stage")
         chk.notes.append("T direction skipped: the first driver stage produced no points (the implementation already failed the replays above)")
         return finish(chk, variants, fstat, sst, str_, gen, {})
-    common = sc_driver(rng, nsc) + group_driver(rng, pts, ngl) + ecmult_driver(rng, pts, nem) + hash_driver(rng, nh) + fe_driver(rng, nfe, False)
+    common = sc_driver(rng, nsc) + group_driver(rng, pts, ngl) + ecmult_driver(rng, pts, nem) + hash_driver(rng, nh) + fe_driver(rng, nfe, False) + fe_struct_driver(quick)
     events = {"std": list(ev1)}; seen = set(); per_variant = {}
     for v in variants:
         inputs = common + fe_driver(random.Random(chk.seed + 17), nfe // 2, True)     # get_bounds values are layout-specific: same inputs, recorded per variant
